@@ -1,4 +1,5 @@
 import Rv.Model.Event
+import Rv.Model.Mailbox
 import Rv.Spec.PubSub
 /-
   Rv.Oracle.Event — replays `event` op lines through Rv.Model.Event and checks
@@ -31,6 +32,13 @@ def nListeners : Nat := 4
 def step (es : EState) (fs : List String) (obs : String) : EState × String × String :=
   match fs with
   | ["ev", "reset"] => ({}, render init nListeners, "ok")
+  | ["ev", "janitor", _backend, _a, _b] =>
+    -- Props/C19 cleanup_task_follows_latest_interval: two delivered changes, the task busy in between
+    let m := (Rv.Mailbox.run true [.deliver 1, .deliver 2, .drain, .drain] (Rv.Mailbox.init 0)).interval
+    let mobs := if m = 2 then "follows:latest" else "follows:older"
+    if obs.startsWith "setup-incomplete" || obs.startsWith "unclear" then (es, obs, "ok")
+    else (es, mobs ++ ";cycles=" ++ between (obs ++ ";") "cycles=" ";",
+          if obs.startsWith "follows:latest" then "ok" else if obs.startsWith "panic" then "bad:panic" else "bad:cleanup-task-not-following-the-latest-interval")
   | ["ev", opn, arg] =>
     let op : Option Op := match opn with
       | "subscribe" => some (.subscribe (nat arg))
